@@ -126,6 +126,19 @@ func evalC09(c c09Case) (c09Stats, error) {
 			if len(got) != k {
 				return st, fmt.Errorf("%s stream of %d records (record ends %v) cut at byte %d: decoded %d records then %v, but exactly %d were completely written", codec.Name, len(written), ends, cut, len(got), derr, k)
 			}
+			// the same prefix from a reader that hands over its last bytes together with the end (as response bodies of
+			// known length and decompressors do), in one piece or in chunks
+			var sizes []int
+			if cut%2 == 1 {
+				sizes = []int{1 + int(c.Seed%4099), 1 + int(c.Seed>>16%257)}
+			}
+			got2, derr2 := vgen.DecodeAll(codec.Dec(&vgen.ChunkReader{Data: data[:cut], Sizes: sizes, EOFWithData: true}), len(written)+1)
+			if derr2 == nil {
+				return st, fmt.Errorf("%s cut at %d/%d, last bytes delivered together with EOF: decoder did not end", codec.Name, cut, len(data))
+			}
+			if len(got2) != k {
+				return st, fmt.Errorf("%s stream of %d records (record ends %v) cut at byte %d, read in chunks %v with the last bytes delivered together with EOF: decoded %d records then %v, but exactly %d were completely written", codec.Name, len(written), ends, cut, sizes, len(got2), derr2, k)
+			}
 			if d := vgen.DiffResults(written[:k], got); d != "" {
 				return st, fmt.Errorf("%s stream cut at byte %d: decoded record differs from the one written: %s", codec.Name, cut, d)
 			}
